@@ -166,12 +166,67 @@ def make(n, kinds, orders="rev"):
     return fn
 
 
+def scale_fn(g):
+    """A task with seven run_experiment dependencies (cached / executed mix) and names of 130+ characters."""
+    from vlib import fakeos
+    from vlib.hrun import TaskSpec
+    import conductor.cli.run as cli_run
+    long_names = g.flag("long_names")
+    again = g.flag("again")
+    cached_mask = g.choose("cached_mask", 4)          # which of the experiments already have a version
+    stem = ("n" * 128 + "-") if long_names else "e"
+    exps = [TaskSpec("%s%d" % (stem, i), "run_experiment", [], pkg="data/sets") for i in range(7)]
+    top = TaskSpec("top", ("run_command", "run_experiment")[g.choose("top_kind", 2)], [e.ident for e in exps], pkg="")
+    other = TaskSpec("other", "run_command", [exps[0].ident, exps[6].ident], pkg="x")
+    root = TaskSpec("root", "group", [top.ident, other.ident], pkg="")
+    specs = exps + [top, other, root]
+    proj = hrun.Project()
+    try:
+        proj.write_tasks(specs)
+        vdir = {}
+        masks = {0: [], 1: [0, 1, 2, 3, 4, 5, 6], 2: [0, 2, 4, 6], 3: [6]}[cached_mask]
+        for i in masks:
+            vdir[i] = str(proj.add_version(exps[i].ident, 100 + i))
+        kern = fakeos.Kernel(graphs.SymSched(g, all_ok=True, on_spawn=graphs.output_writer), clock=fakeos.Clock())
+        res = hrun.invoke(cli_run.main, hrun.run_ns(task_identifier=root.ident, again=again), str(proj.root), kern, timeout=120)
+        D = "7 experiments (names of %d chars) cached=%s again=%s top=%s" % (len(exps[0].name), masks, again, top.kind)
+        if isinstance(res.status, str):
+            g.require(False, "env:crash:" + res.status[4:], "%s; %s" % (res.exc, D))
+        g.require(res.status == 0, "env:run-failed", "status=%r err=%r; %s" % (res.status, res.err[-200:], D))
+        procs = {p.name: p for p in kern.tasks()}
+        expect = []
+        for i, e in enumerate(exps):
+            if e.name in procs:
+                out = procs[e.name].env["COND_OUT"]
+                g.require(re.fullmatch(re.escape(str(proj.out / "data/sets" / (e.name + ".task"))) + r"\.[1-9][0-9]*", out) is not None,
+                          "env:cond-out", "%s COND_OUT=%r; %s" % (e.ident[:40], out[-60:], D))
+                expect.append(out)
+            else:
+                expect.append(vdir.get(i))
+        g.require(all(x is not None for x in expect), "env:run-failed", "an experiment neither ran nor was cached; %s" % D)
+        g.require(len(set(expect)) == 7, "env:output-directories-collide", "two experiments share an output directory; %s" % D)
+        for who, idxs in (("top", range(7)), ("other", (0, 6))):
+            want = ":".join(expect[i] for i in idxs)
+            got = procs[who].env.get("COND_DEPS") if who in procs else None
+            g.require(got == want, "env:cond-deps", "%s COND_DEPS lists %s, expected the directories written/selected in this invocation %s; %s" % (
+                who, [x[-28:] for x in (got or "").split(":")], [x[-28:] for x in want.split(":")], D))
+        g.goal("task with more than five experiment dependencies")
+        if long_names:
+            g.goal("task names longer than 128 characters")
+        return {"nontrivial": True, "sample": {"case": D}}
+    finally:
+        proj.cleanup()
+
+
 def spaces(tier):
     goals = ["two dependents of one task both executed", "dependent of a cached experiment", "dependency in another package",
              "two dependencies with the same task name"]
     sp = [Space("n3-layouts", make(3, graphs.ALL_KINDS),
                 "N<=3, every edge set, deps forward/reversed, 4 kinds, 3 package layouts (depth 0..2), cache bit per experiment, "
                 "--again, 3 args/options decorations", depth=8, goals=goals, outside=["N>4", "root path with ':'", "jobs>1"])]
+    sp.append(Space("scale-seven-experiment-deps", scale_fn, "a task with 7 run_experiment dependencies in a nested package (4 cache patterns, "
+                    "--again, dependent kind), a second dependent of two of them, names of 1 or 130 characters", depth=5,
+                    goals=["task with more than five experiment dependencies", "task names longer than 128 characters"]))
     if tier == "thorough":
         sp.append(Space("n4-exp-cmd-combine", make(4, ("run_experiment", "run_command", "combine")),
                         "N=4, kinds {experiment, command, combine}, layouts, cache bits, --again, decorations", depth=10, tiers=("thorough",)))
